@@ -181,6 +181,14 @@ func (n *native) binFor(pkg string) (string, error) {
 	return bin, nil
 }
 
+// scratchTmp is the TMPDIR of native test processes: temporary files the code under test creates
+// (snapshot recorders) stay inside the run's scratch directory, which is removed at the end.
+func (n *native) scratchTmp() string {
+	d := filepath.Join(n.dir, "tmp")
+	os.MkdirAll(d, 0o755)
+	return d
+}
+
 // raceConfirm runs a thread harness natively under the race detector (free-running goroutines,
 // the replay file repeated `runs` times) and reports whether a DATA RACE involving both functions
 // of the key was observed.
@@ -221,7 +229,7 @@ func (n *native) raceConfirm(pkg, file, key string, runs int) (bool, string) {
 	os.WriteFile(list, []byte(sb.String()), 0o644)
 	cmd := exec.Command(bin, "-test.run", "^TestVerifReplay$", "-test.timeout", "4m")
 	cmd.Dir = pkgDir(pkg)
-	cmd.Env = append(os.Environ(), "VERIF_REPLAY_LIST="+list, "GORACE=halt_on_error=0")
+	cmd.Env = append(os.Environ(), "VERIF_REPLAY_LIST="+list, "GORACE=halt_on_error=0", "TMPDIR="+n.scratchTmp())
 	out, _ := cmd.CombinedOutput()
 	var fs []string
 	for _, side := range strings.Split(strings.TrimPrefix(key, "KF-race:"), "|") {
@@ -292,7 +300,7 @@ func (n *native) run(pkg string, files []string, timeout time.Duration) (map[str
 	os.WriteFile(list, []byte(strings.Join(files, "\n")+"\n"), 0o644)
 	cmd := exec.Command(bin, "-test.run", "^TestVerifReplay$", "-test.timeout", timeout.String())
 	cmd.Dir = pkgDir(pkg)
-	cmd.Env = append(os.Environ(), "VERIF_REPLAY_LIST="+list)
+	cmd.Env = append(os.Environ(), "VERIF_REPLAY_LIST="+list, "TMPDIR="+n.scratchTmp())
 	out, _ := cmd.CombinedOutput()
 	var cur *replayResult
 	sc := bufio.NewScanner(bytes.NewReader(out))
